@@ -11,6 +11,7 @@ import (
 
 	"golang.org/x/sys/unix"
 
+	"github.com/panjf2000/gnet/v2/pkg/pool/byteslice"
 	"github.com/panjf2000/gnet/v2/pkg/socket"
 
 	"gnetverif/harness/util"
@@ -30,9 +31,37 @@ func saStr(sa unix.Sockaddr) string {
 
 func atoi(s string) int { n, _ := strconv.Atoi(s); return n }
 
+// retained: addresses handed out earlier in this case must keep their value whatever is converted later
+// ("these values stay correct for the whole life of the connection")
+type kept struct {
+	addr net.Addr
+	snap string
+}
+
+var retained []kept
+
+func recheck() {
+	// churn in the size class the zone scratch buffers come from: memory still referenced by a
+	// handed-out address must not be handed out again
+	b := byteslice.Get(32)
+	for i := range b {
+		b[i] = '#'
+	}
+	byteslice.Put(b)
+	for _, k := range retained {
+		if now := k.addr.String(); now != k.snap {
+			util.Fail(fmt.Sprintf("C17: an address reported earlier as %q reads %q after later conversions (its memory was reused)", k.snap, now))
+			retained = nil
+			return
+		}
+	}
+}
+
 func step(ws []string) string {
+	defer recheck()
 	switch ws[0] {
 	case "ifs":
+		retained = nil
 		return "ok"
 	case "conv", "convudp":
 		var ip net.IP
@@ -63,6 +92,12 @@ func step(ws []string) string {
 				}
 			}
 		}()
+		if back != nil {
+			if len(retained) >= 64 {
+				retained = retained[1:]
+			}
+			retained = append(retained, kept{back, strings.Clone(back.String())})
+		}
 		bs := "back=nil"
 		var bip net.IP
 		bport, bzone := 0, ""
